@@ -480,6 +480,16 @@ func runC10(r *Run, rng *Rng, thorough bool) {
 		if why := wireFormatOK(b, &d); why != "" {
 			r.Fail("wire-format", why)
 		}
+		// the same claims-set after a trip through the JSON codec is emitted in the same wire format
+		if jb, jerr := psa.EncodeClaimsToJSON(c); jerr == nil && !hasBadUTF8(&d) {
+			if cj, derr := psa.DecodeAndValidateClaimsFromJSON(jb); derr == nil {
+				if bj, eerr := psa.ValidateAndEncodeClaimsToCBOR(cj); eerr != nil {
+					r.Fail("encode-valid", fmt.Sprintf("a valid claims-set decoded from its own JSON does not encode to CBOR: %v", eerr))
+				} else if why := wireFormatOK(bj, &d); why != "" {
+					r.Fail("wire-format", "claims-set decoded from JSON, then encoded to CBOR: "+why)
+				}
+			}
+		}
 		// … and stays what it was: outputs of earlier calls are not overwritten by later ones
 		held.add("ValidateAndEncodeClaimsToCBOR", b)
 		if b2, err := psa.EncodeClaimsToCBOR(c); err == nil {
